@@ -16,7 +16,10 @@ TICKS = [0.5, 0.01, 1.0, 0.25]
 REAL_TICKS = [0.0137, 3.3331, 0.7919]
 
 
-def rows_from_ticks(moves, start, tick, t0=T0):
+VUNITS = [1.0, 0.3713, 1.0, 0.012345]  # volume per generated unit: traded volumes are fractional numbers with many decimals
+
+
+def rows_from_ticks(moves, start, tick, t0=T0, vunit=1.0):
     """moves: list of (gap, body, up, down, vol) integer tuples -> candle rows on the lattice start*tick."""
     rows = []
     prev_close = start
@@ -29,7 +32,7 @@ def rows_from_ticks(moves, start, tick, t0=T0):
             c = o + abs(body)
         h = max(o, c) + up
         lo = max(min(o, c) - down, 1)
-        rows.append([float(t0 + i * MIN), o * tick, c * tick, h * tick, lo * tick, float(vol)])
+        rows.append([float(t0 + i * MIN), o * tick, c * tick, h * tick, lo * tick, float(vol) * vunit])
         prev_close = c
     return rows
 
@@ -49,7 +52,7 @@ def structural(draw, n, tick=None, max_body=4, max_wick=4, gap_sizes=(1, 2, 3, 6
     minute = st.tuples(gaps, body, wick, wick, st.integers(0, 50), kind)
     raw = draw(st.lists(minute, min_size=n, max_size=n))
     moves = [(g, 0, 0, 0, v if v % 3 else 0) if k == 'f' else (g, b, u, d, v + 1) for g, b, u, d, v, k in raw]
-    return dict(tick=tick, start=start, rows=rows_from_ticks(moves, start, tick, t0))
+    return dict(tick=tick, start=start, rows=rows_from_ticks(moves, start, tick, t0, vunit=draw(st.sampled_from(VUNITS))))
 
 
 def prng_rows(seed, n, tick=0.5, start=400, vol=3, gap_p=0.05, flat_p=0.05, trend=0.0, t0=T0):
@@ -67,7 +70,7 @@ def prng_rows(seed, n, tick=0.5, start=400, vol=3, gap_p=0.05, flat_p=0.05, tren
             moves.append((int(gap[i]), 0, 0, 0, 0 if i % 2 else int(v[i])))
         else:
             moves.append((int(gap[i]), int(body[i]), int(up[i]), int(down[i]), int(v[i])))
-    return rows_from_ticks(moves, start, tick, t0)
+    return rows_from_ticks(moves, start, tick, t0, vunit=VUNITS[int(seed) % len(VUNITS)])
 
 
 @st.composite
